@@ -1,6 +1,6 @@
 from sympy.physics import units
-from sympy.physics.units import convert_to
 from .quantities import Quantity
+from ..dimensions import assert_equivalent_dimension
 
 
 class Celsius:
@@ -33,5 +33,7 @@ def from_kelvin(value: float) -> Celsius:
 
 
 def from_kelvin_quantity(value: Quantity) -> Celsius:
-    kelvin_value = float(convert_to(value, units.kelvin).subs(units.kelvin, 1).evalf())
+    # NOTE: SymPy's 'convert_to' does not check dimensions, eg it converts kelvin**2 as well
+    assert_equivalent_dimension(value, "value", "from_kelvin_quantity", units.temperature)
+    kelvin_value = float(value.scale_factor / Quantity(units.kelvin).scale_factor)
     return from_kelvin(kelvin_value)
